@@ -181,10 +181,147 @@ def check_pair(ctx, A, B, tags, S, form, label, plain_diff):
         ctx.violation('%s|EMPTY-SET-DIFFERS' % PROP, 'diff with nothing ignored differs from the default diff', case)
 
 
+# ---- path-level Ignore mappings (single paths and key lists, as documented in config.rst) ---------------------------------
+
+PATH_SPECS = [
+    {'/cells/*/source': True}, {'/cells/*/outputs': True}, {'/cells/*/attachments': True}, {'/metadata': True}, {'/cells/*/metadata': True},
+    {'/cells/*/outputs/*/metadata': True}, {'/metadata': ['kernelspec']}, {'/metadata': ['x', 'tags']}, {'/cells/*/metadata': ['tags']},
+    {'/cells/*/metadata': ['custom', 'collapsed', 'level']}, {'/cells/*/outputs/*/metadata': ['isolated', 'width']}, {'/cells/*': ['execution_count']},
+    {'/cells/*/outputs/*': ['execution_count']}, {'/cells/*/outputs/*': ['metadata']}, {'/cells/*': ['metadata']},
+    {'/metadata': True, '/cells/*/outputs/*/metadata': ['width']}, {'/cells/*/outputs/*/metadata': True, '/cells/*/metadata': ['tags']},
+]
+
+
+def spec_regions(spec):
+    regs = []
+    for p, v in spec.items():
+        if v is True:
+            regs.append(p)
+        else:
+            regs.extend('%s/%s' % (p, k) for k in v)
+    return regs
+
+
+def in_regions(path, regs):
+    return any(path == r or path.startswith(r + '/') for r in regs)
+
+
+def changed_paths(a, b, path=''):
+    """Starred paths at which two documents differ (independent structural comparison; a list whose length changes is
+    reported as the list itself)."""
+    if type(a) is not type(b):
+        return [path or '/']
+    if isinstance(a, dict):
+        out = []
+        for k in sorted(set(a) | set(b)):
+            if k not in a or k not in b:
+                out.append('%s/%s' % (path, k))
+            else:
+                out.extend(changed_paths(a[k], b[k], '%s/%s' % (path, k)))
+        return out
+    if isinstance(a, list):
+        if len(a) != len(b):
+            return [path or '/']
+        out = []
+        for x, y in zip(a, b):
+            out.extend(changed_paths(x, y, path + '/*'))
+        return out
+    return [] if canon(a) == canon(b) else [path or '/']
+
+
+def proj_regions(doc, regs, path=''):
+    if isinstance(doc, dict):
+        return {k: proj_regions(v, regs, '%s/%s' % (path, k)) for k, v in doc.items() if not in_regions('%s/%s' % (path, k), regs)}
+    if isinstance(doc, list):
+        return [proj_regions(v, regs, path + '/*') for v in doc]
+    return doc
+
+
+def leaked_paths(d, regs, path=''):
+    for e in d:
+        k = e['key']
+        p = path + '/' + ('*' if isinstance(k, int) else str(k))
+        if in_regions(p, regs):
+            yield p, e['op']
+            continue
+        if e['op'] == 'patch':
+            for x in leaked_paths(e['diff'], regs, p):
+                yield x
+
+
+def check_spec_pair(ctx, A, B, spec, label):
+    import nbdime
+    ctx.count('evaluations')
+    ctx.count('nontrivial')
+    ctx.count('path_level_cases')
+    regs = spec_regions(spec)
+    case = {'A': A, 'B': B, 'ignore_mapping': spec, 'label': label, 'path_level': True}
+    try:
+        with time_limit(30):
+            d = json.loads(json.dumps(nbdime.diff_notebooks(U.to_node(A), U.to_node(B))))
+    except Exception as e:
+        ctx.violation(exc_fingerprint(PROP, e, 'PATH-EXC'), 'diff_notebooks under an Ignore mapping raised %s: %s' % (type(e).__name__, e), case)
+        return
+    name = '+'.join(sorted('%s=%s' % (p, 'all' if v is True else 'keys') for p, v in spec.items()))
+    for p, op in leaked_paths(d, regs):
+        ctx.violation('%s|PATH-LEAK|%s|%s' % (PROP, p, op), 'diff reports %s at %s although the Ignore mapping %r covers it' % (op, p, spec), case)
+    try:
+        got = ref_patch(A, d)
+        if canon(proj_regions(got, regs)) != canon(proj_regions(B, regs)):
+            from .C02 import classify
+            cls = classify(proj_regions(got, regs), proj_regions(B, regs))
+            ctx.violation('%s|PATH-NON-IGNORED-PART-LOST|%s' % (PROP, cls if cls == 'type-only' else name + '|' + cls),
+                          'patching with the filtered diff does not reproduce the parts outside the Ignore mapping %r' % (spec,), case)
+    except RefPatchError as e:
+        ctx.violation('%s|PATH-PATCH-ERROR|%s' % (PROP, name), 'filtered diff cannot be applied: %s' % e, case)
+    ch = changed_paths(A, B)
+    if ch and all(in_regions(p, regs) for p in ch) and not any(r.startswith('/cells/*/source') for r in regs):
+        ctx.count('path_level_hidden_edits')
+        if d:
+            ctx.violation('%s|PATH-NOT-EMPTY|%s' % (PROP, name), 'notebooks differ only inside the Ignore mapping %r but the diff is not empty' % (spec,), case)
+
+
+def configure_mapping(spec, workdir):
+    from nbdime import nbdiffapp
+    from nbdime.args import process_diff_flags
+    isolate.reset_globals()
+    with open(os.path.join(workdir, 'nbdime_config.json'), 'w') as f:
+        json.dump({'NbDiff': {'Ignore': spec}}, f)
+    os.chdir(workdir)
+    so, se = sys.stdout, sys.stderr
+    sys.stdout, sys.stderr = io.StringIO(), io.StringIO()
+    try:
+        args = nbdiffapp._build_arg_parser(prog='nbdiff').parse_args(['a.ipynb', 'b.ipynb'])
+        process_diff_flags(args)
+    finally:
+        sys.stdout, sys.stderr = so, se
+        os.chdir('/')
+
+
 _G = {}
 
 
 def _shard(sh, ctx):
+    if sh[0] == 'pathspecs':
+        _, sname, specs = sh
+        seed, d1 = _G['space'][sname]
+        work = tempfile.mkdtemp(prefix='c14p-', dir=isolate.scratch_root())
+        try:
+            for spec in specs:
+                configure_mapping(spec, work)
+                for label, tags, x in d1:
+                    check_spec_pair(ctx, seed, x, spec, '%s->%s' % (sname, label))
+                    check_spec_pair(ctx, x, seed, spec, '%s<-%s' % (sname, label))
+                ctx.sample({'seed': sname, 'ignore_mapping': spec, 'edits': len(d1)}, rank=(sname, repr(spec)))
+        finally:
+            os.chdir('/')
+            shutil.rmtree(work, ignore_errors=True)
+            isolate.reset_globals()
+        return
+    _shard_subsets(sh, ctx)
+
+
+def _shard_subsets(sh, ctx):
     import nbdime
     import nbdime.diffing.notebooks as nbs
     kind, sname, subsets = sh
@@ -267,6 +404,8 @@ def run(tier, seed):
     for n in names:
         for ch in chunked(subsets, 32):
             shards.append(('subsets', n, ch))
+        for spec in PATH_SPECS:
+            shards.append(('pathspecs', n, [spec]))
     ctx = run_shards(_shard, shards, seed=seed, label=PROP)
     ev = ctx.counters['evaluations']
     return Result(
@@ -299,8 +438,14 @@ def replay(case, ctx):
     isolate.setup_env()
     isolate.install_id_counter()
     work = tempfile.mkdtemp(prefix='c14-', dir=isolate.scratch_root())
-    S = frozenset(case['ignored'])
-    configure(case['form'], S, work)
+    S = frozenset(case.get('ignored', ()))
+    if not case.get('path_level'):
+        configure(case['form'], S, work)
+    if case.get('path_level'):
+        configure_mapping(case['ignore_mapping'], work)
+        check_spec_pair(ctx, case['A'], case['B'], case['ignore_mapping'], case.get('label', ''))
+        isolate.reset_globals()
+        return
     if case.get('reset'):
         nbs.set_notebook_diff_targets()
         d = json.loads(json.dumps(nbdime.diff_notebooks(U.to_node(case['A']), U.to_node(case['B']))))
